@@ -199,6 +199,40 @@ func runC10(o *cli.Opts, run *evid.Run) {
 		check(proofs[(i*7919)%len(proofs)])
 	}
 	run.Set("sequential_round_trips", seq)
+	// a stream of proofs decoded into ONE destination variable, each result kept by value (the usual
+	// `for dec.More() { dec.Decode(&cur); out = append(out, cur) }` loop): a later decode must not change a proof
+	// decoded earlier
+	if run.Wants("C10/stream") {
+		var cur prover.Proof
+		type keptProof struct {
+			p    prover.Proof
+			want c10Proof
+		}
+		var kept []keptProof
+		nStream := min(len(proofs), o.Pick(300, 3000))
+		for i := 0; i < nStream; i++ {
+			pc := proofs[(i*104729)%len(proofs)]
+			doc := pc.pt.ProofDoc([]string{"hex", "padhex"}[i%2])
+			if err := safeUnmarshal(doc, &cur); err != nil {
+				continue // reported by the per-proof cases
+			}
+			kept = append(kept, keptProof{cur, pc})
+		}
+		changed := 0
+		for i, k := range kept {
+			ok := k.p.Proof != nil && ref.GetPoints(k.p.Proof).Equal(k.want.pt)
+			if ok && k.want.hash != nil {
+				ok = ps.VerifyInsertion(*k.want.hash, &k.p) == nil
+			}
+			if !ok {
+				changed++
+				if changed <= 3 {
+					run.Violate(fmt.Sprintf("C10/stream/%d", i), fmt.Sprintf("proof %d of %d decoded one after the other into the same variable (and kept by value) no longer equals its original after the later decodes", i, len(kept)), nil)
+				}
+			}
+			run.Case("stream-kept", true, fmt.Sprintf("stream %d %s", i, k.want.label), ok, map[string]any{"position": i, "of": len(kept)})
+		}
+	}
 	cli.ForEach(len(proofs), 0, func(i int) { check(proofs[i]) })
 	// must-reject: a coordinate that does not fit 32 bytes / is negative
 	for i := 0; i < 8; i++ {
